@@ -386,6 +386,15 @@ class C16(Property):
                                 bad = "%s does not mention %s (section %r)" % (fmt, nm, " ".join([app] + path))
             if bad:
                 out.append(Finding("violation", c, bad))
+            # the manpage document lists, for every command level, that level's own help flag -- and its version flag exactly
+            # when the level has a version
+            mterms = span_terms([(k_, a_, b_) for k_, a_, b_ in re.findall(r"\((t|s|e) (\w+)(?: (x[0-9a-f]*))?\)", dr)])
+            n_help, n_ver = mterms.count("-h, --help"), mterms.count("-V, --version")
+            w_help, w_ver = len(secs), sum(1 for _, o in secs if o["version"] is not None)
+            if (n_help, n_ver) != (w_help, w_ver):
+                out.append(Finding("violation", c, "the manpage lists the help flag %d times and the version flag %d times, but the "
+                                                   "definition has %d command levels, %d of them with a version"
+                                   % (n_help, n_ver, w_help, w_ver)))
             hidden = set()
             for x in gen.walk(c.opts):
                 if x.get("k") == "hide":
